@@ -8,6 +8,7 @@ def build(reg):
     specs = record.add_lifecycle(reg)
     specs = specs + [x for x in manifest.add_manifest(reg) if x.qual in ("IH5MFRecord.create_stub", "IH5MFRecord.commit_patch")]  # entry points that create / finish containers next to committed ones
     specs = specs + ublock.add_ublock(reg)  # the single sequential write of text + NUL that the torn-write enumeration relies on; a new block is uncommitted
+    specs = specs + [record.OpenRecord()]  # what merely LOOKING at a file set does: an uncommitted newest container stays read-only unless asked for (also with the defaults)
     specs = specs + findfiles.add_findfiles(reg)  # 'the complete file set' after a crash is what find_files assembles by name: every container of the record, however many
     return {
         "verify": specs,
